@@ -26,7 +26,7 @@ func init() {
 			"child Footers with refs == 0) must get their refs stored by the loader that walks them (doLoadSegments / ScanFooter) before the parent is returned; otherwise the first " +
 			"AddRef/DecRef pair of any reader takes the child to zero and releases it under its parent.",
 		Props: []string{"C15", "C02", "C11"},
-		Floor: 5,
+		Floor: 3,
 		Run:   ruleRef5,
 	})
 	register(&Rule{
@@ -35,7 +35,7 @@ func init() {
 			"persistFooterUnsynced (the position just written) and by footer literals of ScanFooter (the position just verified); every function that publishes a footer appended to the file of the " +
 			"footer it replaces without compacting (persist via buildNewFooter, snapshotRevert) stores PrevFooterOffset of the published footer before persisting it.",
 		Props: []string{"C12", "C04"},
-		Floor: 4,
+		Floor: 3,
 		Run:   ruleHist,
 	})
 }
